@@ -1,4 +1,6 @@
 import PromProofs.ExemplarsOrd
+import PromProofs.ExemplarsResize
+import PromProofs.ExemplarsSelect
 /-
   C21 — Exemplar storage keeps the newest accepted exemplars in order.
   Property theorems about the transcribed `CircularExemplarStorage` (PromModel/Tsdb/Exemplars.lean).
@@ -56,5 +58,139 @@ theorem evicts_oldest_when_full (r : Ring) (s : Nat) (e : Ex) (h : RingOrd r)
 example : ∃ r : Ring, RingOrd r ∧ (absAcc r).length = r.exs.length ∧ (add r 0 ⟨5, 0, true, "-", 0⟩).2 = .stored :=
   ⟨(add (Ring.new 1 0) 0 ⟨3, 0, true, "-", 0⟩).1,
     (evict_in_acceptance_order _ _ _ (ringOrd_new 1 0)).1, by decide, by decide⟩
+
+/-- **Resizing keeps the most recently accepted exemplars that fit** (grow, shrink, zero, no-op),
+    keeps the ring-order invariant and the window. -/
+theorem resize_keeps_newest_that_fit (r : Ring) (l : Int) (h : RingOrd r) :
+    RingOrd (resize r l).1 ∧
+    (resize r l).1.exs.length = (if l ≤ 0 then 0 else l.toNat) ∧
+    (resize r l).1.window = r.window ∧
+    absAcc (resize r l).1 = lastN (if l ≤ 0 then 0 else l.toNat) (absAcc r) := by
+  obtain ⟨k, acc, hw⟩ := h
+  obtain ⟨h1, h2, k', h3⟩ := resize_ringOrd r l k acc hw
+  exact ⟨⟨k', _, h3⟩, h1, h2, by rw [h3.absAcc, hw.absAcc]⟩
+
+/-- The ring-order invariant holds in every state reachable by `add`/`resize`/window changes. -/
+inductive Reachable : Ring → Prop
+  | new (c w : Int) : Reachable (Ring.new c w)
+  | add {r} (s : Nat) (e : Ex) : Reachable r → Reachable (add r s e).1
+  | resize {r} (l : Int) : Reachable r → Reachable (resize r l).1
+  | window {r} (d : Int) : Reachable r → Reachable { r with window := d }
+
+theorem ringOrd_reachable {r : Ring} (h : Reachable r) : RingOrd r := by
+  induction h with
+  | new c w => exact ringOrd_new c w
+  | add s e _ ih => exact (evict_in_acceptance_order _ s e ih).1
+  | resize l _ ih => exact (resize_keeps_newest_that_fit _ l ih).1
+  | window d _ ih => obtain ⟨k, acc, h1, h2⟩ := ih; exact ⟨k, acc, h1, h2⟩
+
+/-- **Refinement of the data part** (`ring_refines_spec`, proved part). Under the abstraction `absf`
+    (capacity, window, retained exemplars in acceptance order) every reachable concrete step is the
+    abstract step: a stored add appends and cuts to the newest `cap`; any other add is the identity;
+    `resize` is `Spec.resize`. What is *not* proved here is that the model's accept/drop decision
+    (`(add r s e).2`, taken from `idx.newest` and the links) equals `Spec.add`'s decision
+    (`Spec.classify` / `Spec.silentDrop` on the retained list) — see `ring_refines_spec_full`. -/
+theorem ring_refines_spec_partial {r : Ring} (h : Reachable r) :
+    (∀ s e, absf (add r s e).1 =
+      if (add r s e).2 = .stored then { absf r with acc := lastN (absf r).cap ((absf r).acc ++ [(s, e)]) }
+      else absf r) ∧
+    (∀ l, absf (resize r l).1 = (absf r).resize l) := by
+  have ho := ringOrd_reachable h
+  constructor
+  · intro s e
+    obtain ⟨_, h2, h3⟩ := evict_in_acceptance_order r s e ho
+    by_cases hst : (add r s e).2 = .stored
+    · obtain ⟨k, acc, hw⟩ := ho
+      have hs := add_stored_eq r s e hst
+      have hd := store_data r s e (r.index s).isSome (oooCheck r (r.index s) e).1 (oooCheck r (r.index s) e).2
+      simp only [hst, if_true, absf]
+      rw [h2 hst, hs.2, hd.1, hd.2.1]
+    · simp only [hst, if_false]; rw [h3 hst]
+  · intro l
+    obtain ⟨_, h2, h3, h4⟩ := resize_keeps_newest_that_fit r l ho
+    simp only [absf, Spec.resize, h2, h3, h4]
+
+/-- The full refinement statement (decision included); not proved. Needs `links_wellformed` for all
+    steps plus "`idx.newest` is the last accepted among the greatest timestamps of the series". -/
+def ring_refines_spec_full : Prop :=
+  ∀ r, Reachable r → ∀ s e, (Spec.add (absf r) s e).2 = (add r s e).2 ∧ absf (add r s e).1 = (Spec.add (absf r) s e).1
+
+/-- **Select returns, per series, the retained exemplars in range, time-sorted.**  For a series whose
+    list `a :: c` is well formed (`ChainOK`, see `links_wellformed`), the inner loop of `Select` started
+    at the oldest entry returns exactly the series' exemplars with `start ≤ ts ≤ stop`, all of them, in
+    non-decreasing timestamp order. -/
+theorem select_sorted_in_range (r : Ring) (s a : Nat) (c : List Nat) (start stop : Int)
+    (h : ChainOK r s (a :: c)) :
+    let out := walk r start stop (r.exs.length + 1) (r.getN a)
+    out = ((a :: c).map fun i => (r.getN i).ex).filter (inRange start stop) ∧
+    (out.map (·.ts)).Pairwise (· ≤ ·) ∧
+    (∀ x ∈ out, start ≤ x.ts ∧ x.ts ≤ stop) := by
+  have hw := walk_chainOK r s a c start stop h
+  refine ⟨hw, ?_, ?_⟩
+  · simp only [hw]
+    have hsub : (((a :: c).map fun i => (r.getN i).ex).filter (inRange start stop)).Sublist
+        ((a :: c).map fun i => (r.getN i).ex) := List.filter_sublist
+    have hs : (((a :: c).map fun i => (r.getN i).ex).map (·.ts)).Pairwise (· ≤ ·) := by
+      simpa [List.map_map, Function.comp_def] using h.sorted
+    exact hs.sublist (hsub.map _)
+  · intro x hx
+    simp only [hw, List.mem_filter, inRange, Bool.and_eq_true, decide_eq_true_eq] at hx
+    exact hx.2
+
+/-- `select_sorted_in_range` is not vacuous: the list of series 0 after two adds. -/
+example : ChainOK (add (add (Ring.new 3 0) 0 ⟨3, 0, true, "-", 0⟩).1 0 ⟨5, 0, true, "-", 0⟩).1 0 [0, 1] := by
+  refine ⟨by decide, ?_, by simp only [LinkedFrom]; decide, by decide, by decide⟩
+  intro i
+  by_cases h0 : i = 0
+  · subst h0; decide
+  · by_cases h1 : i = 1
+    · subst h1; decide
+    · by_cases h2 : i = 2
+      · subst h2; decide
+      · simp [h0, h1]; intro hlt
+        have : (add (add (Ring.new 3 0) 0 ⟨3, 0, true, "-", 0⟩).1 0 ⟨5, 0, true, "-", 0⟩).1.exs.length = 3 := by decide
+        omega
+
+/-- **Accept/reject table** of `validateExemplar` against the newest exemplar `n` of the series. -/
+theorem validate_table (r : Ring) (ie : IdxEntry) (e : Ex)
+    (hcap : r.exs.length ≠ 0) (hlen : labelSetLen e.lbl ≤ maxLabelSetLen) :
+    let n := (r.getO ie.newest).ex
+    let late := (e.ts < n.ts ∧ e.ts ≤ n.ts - r.window) ∨ (e.ts = n.ts ∧ f64lt e.val n.val = true) ∨
+      (e.ts = n.ts ∧ f64eq e.val n.val = true ∧ e.hash < n.hash)
+    (validate r (some ie) e = some .dup ↔ n.equals e = true) ∧
+    (validate r (some ie) e = some .ooo ↔ n.equals e = false ∧ late) ∧
+    (validate r (some ie) e = none ↔ n.equals e = false ∧ ¬ late) := by
+  have hl : ¬ labelSetLen e.lbl > maxLabelSetLen := by omega
+  simp only [validate, hcap, hl, if_false]
+  by_cases heq : (r.getO ie.newest).ex.equals e = true
+  · simp [heq]
+  · simp only [heq, if_false, Bool.false_eq_true]
+    split <;> simp_all
+
+/-- Remaining rows of the table: disabled storage, over-long label set, series without exemplars. -/
+theorem validate_table_other (r : Ring) (idx : Option IdxEntry) (e : Ex) :
+    (r.exs.length = 0 → validate r idx e = some .disabled) ∧
+    (r.exs.length ≠ 0 → labelSetLen e.lbl > maxLabelSetLen → validate r idx e = some .toolong) ∧
+    (r.exs.length ≠ 0 → labelSetLen e.lbl ≤ maxLabelSetLen → validate r none e = none) := by
+  refine ⟨fun h => by simp [validate, h], fun h1 h2 => by simp [validate, h1, h2], fun h1 h2 => ?_⟩
+  have : ¬ labelSetLen e.lbl > maxLabelSetLen := by omega
+  simp [validate, h1, this]
+
+/-- What `AddExemplar` does with the verdict: errors other than "duplicate" are returned, a duplicate
+    and an out-of-order exemplar whose timestamp is already at the insertion point are dropped silently
+    (`noop`), everything else is stored. -/
+theorem add_result_table (r : Ring) (s : Nat) (e : Ex) (hcap : r.exs.length ≠ 0) :
+    (add r s e).2 =
+      match validate r (r.index s) e with
+      | some .dup => .noop
+      | some err => .err err
+      | none =>
+        if (oooCheck r (r.index s) e).1 = true ∧ (r.getN (oooCheck r (r.index s) e).2).ex.ts = e.ts then .noop
+        else .stored := by
+  simp only [add, hcap, if_false]
+  generalize validate r (r.index s) e = v
+  cases v with
+  | none => simp only []; split <;> rfl
+  | some x => cases x <;> rfl
 
 end Prom.C21
